@@ -41,7 +41,61 @@ def gen(chk, tier):
     # rejected candidates through the wrappers
     g.one("wrappers_rejections", "sm2.sign", kind="za", za=rb(rng, 32), msg=rb(rng, 10), priv=b32(d),
           script=sm2gen.script_of([0, N, rscalar(rng), rscalar(rng)]))
+    chk.extra["openssl_signatures"] = openssl_cases(chk, g, 6 if q else 60)
     return g.cmds
+
+
+def openssl_cases(chk, g, n):
+    """signatures made by the installed OpenSSL (another GM/T 0003 implementation): inputs for
+    Verify, and at the same time a validation of SM2.tla / ZA (the spec must accept them)"""
+    import subprocess, shutil, os, re
+    if not shutil.which("openssl"):
+        chk.notes.append("openssl not installed: cross-implementation signatures skipped")
+        return 0
+    rng = chk.rng
+    d = os.path.join(chk.rd, "ossl")
+    os.makedirs(d, exist_ok=True)
+    made = 0
+    for i in range(n):
+        key = os.path.join(d, "k%d.pem" % i)
+        if subprocess.run(["openssl", "ecparam", "-name", "SM2", "-genkey", "-noout", "-out", key], capture_output=True).returncode:
+            break
+        txt = subprocess.run(["openssl", "ec", "-in", key, "-text", "-noout"], capture_output=True, text=True).stdout
+        m = re.search(r"pub:\s*((?:[0-9a-f]{2}:?\s*)+)", txt)
+        if not m:
+            break
+        pub = bytes.fromhex(re.sub(r"[^0-9a-f]", "", m.group(1)))
+        if len(pub) != 65 or pub[0] != 4:
+            break
+        idb = bytes(rb(rng, rng.choice([16, 1, 53, 100])))
+        msg = bytes(rb(rng, rng.choice([0, 5, 23, 24, 64, 200])))
+        mf, sf = os.path.join(d, "m%d" % i), os.path.join(d, "s%d" % i)
+        open(mf, "wb").write(msg)
+        p = subprocess.run(["openssl", "pkeyutl", "-sign", "-in", mf, "-inkey", key, "-rawin", "-digest", "sm3",
+                            "-pkeyopt", "hexdistid:" + idb.hex(), "-out", sf], capture_output=True)
+        if p.returncode:
+            break
+        der = open(sf, "rb").read()
+        # SEQUENCE { INTEGER r, INTEGER s }
+        assert der[0] == 0x30
+        pos = 2 if der[1] < 0x80 else 2 + (der[1] & 0x7f)
+        vals = []
+        for _ in range(2):
+            assert der[pos] == 2
+            ln = der[pos + 1]
+            vals.append(int.from_bytes(der[pos + 2:pos + 2 + ln], "big"))
+            pos += 2 + ln
+        g.one("openssl_signature", "sm2.verify", kind="id", id=list(idb), msg=list(msg), pubx=list(pub[1:33]),
+              puby=list(pub[33:]), r=b32(vals[0]), s=b32(vals[1]), other_impl="openssl")
+        # and a one-bit corruption of the message
+        if msg:
+            bad = bytearray(msg); bad[0] ^= 1
+            g.one("openssl_signature_wrong_msg", "sm2.verify", kind="id", id=list(idb), msg=list(bad), pubx=list(pub[1:33]),
+                  puby=list(pub[33:]), r=b32(vals[0]), s=b32(vals[1]))
+        made += 1
+    if made < n:
+        chk.notes.append("openssl produced only %d of %d signatures" % (made, n))
+    return made
 
 
 def keyfn(b):
@@ -66,6 +120,8 @@ def run(tier):
     chk = Check(PROP, tier)
     chk.model("MC_Vectors")
     chk.exec_and_validate("T_SM2", gen(chk, tier), keyfn, accel=True, families=("bits", "big"), cost=cost)
+    if any(b["key"].startswith("specval") for b in chk.bad):
+        raise core.Infra("the specification disagrees with OpenSSL on a signature OpenSSL produced: suspect SM2.tla / ZA first")
     return chk.finish(
         "model_checking",
         "ZA for id lengths 0..N (every residue of the preimage mod 64), around 8000 and across the 16-bit ENTL limit "
@@ -74,7 +130,8 @@ def run(tier):
         "Gy||xA||yA), e = SM3(ZA||M) with the TLA+ SM3 and the signature with module SM2, i.e. an oracle independent of "
         "the repository's SM3",
         ["TLC; SM3.tla (standard vectors), SM2.tla (toy-curve model), accelerators compared with definitions every run",
-         "OpenSSL cross-signatures are not used (optional input source of the design, not built)"])
+         "signatures produced by the installed OpenSSL (when present) are fed to Verify and must be accepted by the "
+         "specification itself (spec validation); a disagreement there is exit 2, not a violation"])
 
 
 def replay(path):
